@@ -11,28 +11,54 @@ open Extracted
 def spliceUnknown (es : List (Nat × Bytes)) : List (Nat × Bytes) :=
   [(0x50, [1, 2, 3])] ++ es.take 2 ++ [(0x50, [4, 5, 6]), (0x51, [9])] ++ es.drop 2 ++ [(0x50, [7, 8, 9]), (0x50, [0, 0, 0])]
 
-def exIrr (v : Ver) (shape : List PortOccupancy) (frames : List FrameOcc) (junk : Bytes) : Irr :=
-  { extra := [(0x50, 3), (0x51, 1)], mixed := spliceUnknown (canonEventsAny v shape frames), junk := junk }
+def exIrr (v : Ver) (sl el : Nat) (gk : Option GeckoBlocks) (shape : List PortOccupancy) (frames : List FrameOcc) (junk : Bytes) : Irr :=
+  Irr.ofUnknown v sl el gk [(0x50, 3), (0x51, 1)] (spliceUnknown (canonEventsAny v shape frames)) junk
+
+/-- decidable form of `Longer` -/
+def longerb : List (Nat × Bytes) → List (Nat × Bytes) → Bool
+  | [], [] => true
+  | e' :: es', e :: es => ((e' == e) || (e'.1 == e.1 && isFrameEv e.1 && e.2.isPrefixOf e'.2)) && longerb es' es
+  | _, _ => false
+
+theorem longerb_sound : ∀ (es' es : List (Nat × Bytes)), longerb es' es = true → Longer es' es
+  | [], [], _ => .nil
+  | [], _ :: _, h => by simp [longerb] at h
+  | _ :: _, [], h => by simp [longerb] at h
+  | e' :: es', e :: es, h => by
+    simp only [longerb, Bool.and_eq_true, Bool.or_eq_true, beq_iff_eq] at h
+    obtain ⟨h1, h2⟩ := h
+    have ih := longerb_sound es' es h2
+    rcases h1 with h1 | ⟨⟨hc, hf⟩, hp⟩
+    · subst h1; exact .same _ _ _ ih
+    · obtain ⟨c', b'⟩ := e'
+      obtain ⟨c, b⟩ := e
+      simp only at hc hf hp
+      subst hc
+      obtain ⟨x, hx⟩ := List.isPrefixOf_iff_prefix.mp hp
+      subst hx
+      exact .ext _ _ _ _ _ hf ih
 
 /-- the side conditions of `Irr.OK` that are plain Booleans -/
 def irrCheck (r : Replay) (s : Start) (gk : Option GeckoBlocks) (i : Irr) : Bool :=
-  (r.fileIrr s gk i).table.all (fun e => decide (e.1 < 256) && decide (0 < e.2) && decide (e.2 < 65536)) &&
-  decide (((r.fileIrr s gk i).table.map Prod.fst).Nodup) &&
-  decide (3 * (r.fileIrr s gk i).table.length + 1 < 256) &&
-  decide (i.mixed.filter (fun e => isKnown e.1) = canonEventsAny s.version (portOccupancy s) r.frames) &&
-  i.mixed.all (fun e => isKnown e.1 || (decide (e.1 < 256) && decide ((e.1, e.2.length) ∈ i.extra))) &&
+  i.table.all (fun e => decide (e.1 < 256) && decide (0 < e.2) && decide (e.2 < 65536)) &&
+  decide ((i.table.map Prod.fst).Nodup) &&
+  decide (3 * i.table.length + 1 < 256) &&
+  decide ((EV_GAME_START, r.startBlock.length) ∈ i.table) && decide ((EV_GAME_END, r.endLen s.version) ∈ i.table) &&
+  (gk.isNone || decide ((EV_SPLITTER, 516) ∈ i.table)) &&
+  longerb (i.mixed.filter (fun e => isKnown e.1)) (canonEventsAny s.version (portOccupancy s) r.frames) &&
+  i.mixed.all (fun e => decide (e.1 < 256) && decide ((e.1, e.2.length) ∈ i.table)) &&
   (i.junk.isEmpty || (r.fend.isSome && !r.doubled && !(decide (i.junk.length = 1 + endSize s.version) && decide (i.junk.head? = some 0x39)))) &&
   decide ((r.fileIrr s gk i).raw.length < 256 ^ 4)
 
 theorem irr_ok {T : TextOracle} {r : Replay} {s : Start} {gk : Option GeckoBlocks} (hb : r.WFAny T s gk) (i : Irr)
     (hc : irrCheck r s gk i = true) : i.OK T r s gk := by
   simp only [irrCheck, Bool.and_eq_true, decide_eq_true_eq, List.all_eq_true, Bool.or_eq_true, Bool.not_eq_true',
-    List.isEmpty_iff, Option.isSome_iff_exists, Bool.and_eq_false_iff, decide_eq_false_iff_not] at hc
-  obtain ⟨⟨⟨⟨⟨⟨h1, h2⟩, h3⟩, h4⟩, h5⟩, h6⟩, h7⟩ := hc
-  refine ⟨hb, fun e he => ?_, h2, h3, h4, fun e he hk => ?_, fun hj => ?_, h7⟩
+    List.isEmpty_iff, Option.isSome_iff_exists, Bool.and_eq_false_iff, decide_eq_false_iff_not, Option.isNone_iff_eq_none] at hc
+  obtain ⟨⟨⟨⟨⟨⟨⟨⟨⟨h1, h2⟩, h3⟩, hs⟩, he⟩, hsp⟩, h4⟩, h5⟩, h6⟩, h7⟩ := hc
+  refine ⟨hb, fun e he => ?_, h2, h3, hs, he, fun g hg => ?_, longerb_sound _ _ h4, h5, fun hj => ?_, h7⟩
   · have := h1 e he; exact ⟨this.1.1, this.1.2, this.2⟩
-  · rcases h5 e he with h | h
-    · rw [hk] at h; cases h
+  · rcases hsp with h | h
+    · rw [hg] at h; cases h
     · exact h
   · rcases h6 with h | ⟨⟨h, hd⟩, hn⟩
     · exact absurd h hj
@@ -44,37 +70,60 @@ theorem irr_ok {T : TextOracle} {r : Replay} {s : Start} {gk : Option GeckoBlock
 
 /-- 3.16.0, unknown events between the frame events -/
 theorem exampleIrr_A :
-    (exIrr (startOf (exBlock 3 16 760)).version (portOccupancy (startOf (exBlock 3 16 760)))
+    (exIrr (startOf (exBlock 3 16 760)).version 760 6 none (portOccupancy (startOf (exBlock 3 16 760)))
       (exFrames [-123, -122, -122] 17 32 2 16 1 true) []).OK T0
       (exReplay (exBlock 3 16 760) (exFrames [-123, -122, -122] 17 32 2 16 1 true) [2, 255, 0, 1, 255, 255]) (startOf (exBlock 3 16 760)) none :=
   irr_ok example_A _ (by decide +kernel)
 
 /-- 2.2.0 (Frame Start, no Frame End), unknown events between the frame events -/
 theorem exampleIrr_B :
-    (exIrr (startOf (exBlock 2 2 418)).version (portOccupancy (startOf (exBlock 2 2 418)))
+    (exIrr (startOf (exBlock 2 2 418)).version 418 2 none (portOccupancy (startOf (exBlock 2 2 418)))
       (exFrames [-123, -122, -122] 16 23 1 0 0 false) []).OK T0
       (exReplay (exBlock 2 2 418) (exFrames [-123, -122, -122] 16 23 1 0 0 false) [2, 255]) (startOf (exBlock 2 2 418)) none :=
   irr_ok example_B _ (by decide +kernel)
 
 /-- 1.0.0 (frames opened by the first pre-frame event), unknown events between the frame events -/
 theorem exampleIrr_C :
-    (exIrr (startOf (exBlock 1 0 352)).version (portOccupancy (startOf (exBlock 1 0 352)))
+    (exIrr (startOf (exBlock 1 0 352)).version 352 1 none (portOccupancy (startOf (exBlock 1 0 352)))
       (exFrames [-123, -122, -121] 14 12 1 0 0 false) []).OK T0
       (exReplay (exBlock 1 0 352) (exFrames [-123, -122, -121] 14 12 1 0 0 false) [2]) (startOf (exBlock 1 0 352)) none :=
   irr_ok example_C _ (by decide +kernel)
 
 /-- 3.16.0 with a Gecko block, unknown events after it -/
 theorem exampleIrr_G :
-    (exIrr (startOf (exBlock 3 16 760)).version (portOccupancy (startOf (exBlock 3 16 760)))
+    (exIrr (startOf (exBlock 3 16 760)).version 760 6 (some exGecko) (portOccupancy (startOf (exBlock 3 16 760)))
       (exFrames [-123, -122, -122] 17 32 2 16 1 true) []).OK T0
       (exReplay (exBlock 3 16 760) (exFrames [-123, -122, -122] 17 32 2 16 1 true) [2, 255, 0, 1, 255, 255]) (startOf (exBlock 3 16 760)) (some exGecko) :=
   irr_ok example_G _ (by decide +kernel)
+
+/-- a replay of a version the library does not know yet (3.17.0) -/
+theorem example_N : (exReplay (exBlock 3 17 760) (exFrames [-123, -122, -122] 17 32 2 16 1 true) [2, 255, 0, 1, 255, 255]).WFAny T0
+    (startOf (exBlock 3 17 760)) none :=
+  ex_wf _ _ _ _ (by decide +kernel) (fun h => absurd h (by decide +kernel)) (fun _ h => by cases h)
+
+/-- every frame event of a stream carries `n` extra trailing bytes (by event code) -/
+def padEvents (es : List (Nat × Bytes)) : List (Nat × Bytes) :=
+  es.map fun e => (e.1, e.2 ++ List.replicate (e.1 % 5 + 1) 0xEE)
+
+/-- the version's table with the frame-event sizes grown by the same amounts -/
+def padTable (t : List (Nat × Nat)) : List (Nat × Nat) :=
+  t.map fun e => if isFrameEv e.1 then (e.1, e.2 + (e.1 % 5 + 1)) else e
+
+/-- **longer payloads from a newer version**: 3.17.0, every frame event longer than the library knows (1 to 5 extra bytes
+    depending on the event), an unknown event in between -/
+theorem exampleIrr_N :
+    ({ table := padTable (canonTableAny (startOf (exBlock 3 17 760)).version 760 6 none) ++ [(0x50, 3)],
+       mixed := [(0x50, [1, 2, 3])] ++ padEvents (canonEventsAny (startOf (exBlock 3 17 760)).version (portOccupancy (startOf (exBlock 3 17 760)))
+         (exFrames [-123, -122, -122] 17 32 2 16 1 true)),
+       junk := [] } : Irr).OK T0
+      (exReplay (exBlock 3 17 760) (exFrames [-123, -122, -122] 17 32 2 16 1 true) [2, 255, 0, 1, 255, 255]) (startOf (exBlock 3 17 760)) none :=
+  irr_ok example_N _ (by decide +kernel)
 
 /-- the conclusion of `C17_any` holds of the 2.2.0 example with unknown events -/
 theorem exampleIrr_B_fixedpoint :
     let r := exReplay (exBlock 2 2 418) (exFrames [-123, -122, -122] 16 23 1 0 0 false) [2, 255]
     let s := startOf (exBlock 2 2 418)
-    let i := exIrr s.version (portOccupancy s) (exFrames [-123, -122, -122] 16 23 1 0 0 false) []
+    let i := exIrr s.version 418 2 none (portOccupancy s) (exFrames [-123, -122, -122] 16 23 1 0 0 false) []
     ∃ g y, readSlp T0 { skipFrames := false, computeHash := false } (r.fileIrr s none i).encode = .ok g ∧ writeSlp g = .ok y ∧
       readSlp T0 { skipFrames := false, computeHash := false } y = .ok g := by
   intro r s i
